@@ -223,6 +223,13 @@ def step_length(case, s):
 
 
 def conditions_spec(case, s, dt, area=None, amount=None):
+    try:
+        return _conditions_spec(case, s, dt, area, amount)
+    except (ZeroDivisionError, OverflowError, ValueError):
+        raise Discard("temperature programme not representable for this step length")
+
+
+def _conditions_spec(case, s, dt, area=None, amount=None):
     return {"area": case["area"] if area is None else area, "T": case["T"], "amount": case["amount"] if amount is None else amount,
             "x": s.x, "basis": s.basis, "Tp": case["perm"]["T"], "pp": case["perm"]["p"],
             "program": materialise_program(case.get("program"), case["T"], dt * case["steps"])}
